@@ -37,6 +37,21 @@ type c09Args struct {
 	First int
 	Len   int
 	Drop  bool
+	Fixed int // >0: one of the fixed longer histories (two rewrites with writes and removals around them)
+}
+
+// c09Fixed: histories longer than the quick tier's bound that rewrite twice, with a removal, an overwrite or a database
+// change between the rewrites and a write after the last one - state carried from one rewrite to the next shows here.
+func c09Fixed() [][]Action {
+	rw := Action{K: "rewrite"}
+	// plain string values only: other kinds and numbers are re-typed by the JSON preamble (known findings of their own)
+	return [][]Action{
+		{cmd("SET", "a", "x"), rw, cmd("DEL", "a"), rw},
+		{cmd("SET", "a", "x"), cmd("SET", "l", "y"), rw, cmd("DEL", "a"), cmd("RENAME", "l", "m"), rw, cmd("SET", "late", "z")},
+		{cmd("SET", "t", "m"), rw, cmd("FLUSHDB"), cmd("SET", "b", "y"), rw},
+		{cmd("SELECT", "1"), cmd("SET", "a", "one"), rw, cmd("SET", "a", "one-updated"), cmd("SET", "after", "y"), rw, cmd("SET", "late", "z")},
+		{cmd("SET", "a", "x"), rw, cmd("SET", "a", "y"), rw, cmd("APPEND", "a", "z")},
+	}
 }
 
 func c09Alphabet() []Action {
@@ -63,6 +78,10 @@ func (c09Check) Units(tier string, seed int64) []Unit {
 	} else {
 		add(3, []string{"always"}, false)
 	}
+	for i := range c09Fixed() {
+		b, _ := json.Marshal(c09Args{Sync: "always", Fixed: i + 1, Drop: tier == "thorough"})
+		us = append(us, Unit{Name: fmt.Sprintf("fixed-history-%d", i), Args: b})
+	}
 	return us
 }
 
@@ -73,6 +92,13 @@ func (c09Check) Run(u Unit, w *Worker) UnitResult {
 	cfg := InstCfg{DataDir: "/data", RestoreAOF: true, AOFSync: a.Sync}
 	alpha := c09Alphabet()
 	outcomes := map[string]struct{}{}
+	if a.Fixed > 0 {
+		aofHistory("C09", cfg, nil, c09Fixed()[a.Fixed-1], a.Drop, w, &res, outcomes)
+		for o := range outcomes {
+			res.Outcomes = append(res.Outcomes, o)
+		}
+		return res
+	}
 	var rec func(h []Action)
 	rec = func(h []Action) {
 		if rewriteIndex(h) >= 0 {
